@@ -213,15 +213,13 @@ func (ex *Exec) intrinsic(fn *ssa.Function, args []Val, caller *frame) (Val, boo
 	case "strconv.Itoa":
 		i := args[0].(Int)
 		if i.sym() {
-			ex.opaqueN++
-			return opaqueStr{fmt.Sprintf("itoa%d", ex.opaqueN)}, true
+			i = mkInt(64, ex.choose(i)) // one path per value (bounded by choose)
 		}
 		return strconv.Itoa(int(i.signed())), true
 	case "strconv.FormatUint":
 		i := args[0].(Int)
 		if i.sym() {
-			ex.opaqueN++
-			return opaqueStr{fmt.Sprintf("fmtuint%d", ex.opaqueN)}, true
+			i = mkInt(64, ex.choose(i))
 		}
 		return strconv.FormatUint(i.C, int(args[1].(Int).C)), true
 	case "strconv.FormatBool":
